@@ -48,6 +48,12 @@ def gen_world(rng, tier="quick", cls=None, min_cells=4):
         n = rng.randint(max(min_cells, 3), 30)
         shape = (n,)
         ds = gen_forest(rng, n, fanin_bias=rng.choice([0.0, 0.4]))
+        if rng.random() < 0.12:
+            # a confluence with more tributaries than a D8 cell can have (vector / NEXTXY networks): 9..14 inflows
+            k = rng.randint(9, 14)
+            n = k + rng.randint(2, 6)
+            shape = (n,)
+            ds = [0] + [0] * k + [rng.randint(1, k) for _ in range(n - k - 1)]
     n = len(ds)
     loops = False
     if rng.random() < 0.15:
@@ -361,6 +367,33 @@ def _():
     return _noargs, call
 
 
+@op("derived_objects", group="mutate")
+def _():
+    """objects derived from the object (scale-1 upscaling, dump/load) are edited; the source must not notice"""
+    def call(W, a):
+        import os
+        import tempfile
+        f = W.flw
+        derived = []
+        if W.w["cls"] == "raster" and a["via"] == "upscale1" and W.n >= 2:
+            derived.append(f.upscale(1, method=a["method"])[0])
+        else:
+            fd, fn = tempfile.mkstemp(suffix=".pkl")
+            os.close(fd)
+            try:
+                f.dump(fn)
+                derived.append(type(f).load(fn))
+            finally:
+                os.remove(fn)
+        nonpit = [i for i in W.w["valid"] if W.w["ds"][i] != i]
+        for g in derived:
+            if nonpit:
+                g.add_pits(idxs=np.array([nonpit[a["k"] % len(nonpit)]]))
+        return f.idxs_ds.copy(), f.idxs_pit, f.rank, [g.idxs_pit for g in derived]
+    return (lambda rng, w: {"via": rng.choice(["upscale1", "dumpload"]), "method": rng.choice(["eam_plus", "dmm", "eam"]),
+                            "k": rng.randint(0, 50)}, call)
+
+
 # ---- raster only ---------------------------------------------------------------------------
 R = ("raster",)
 
@@ -668,7 +701,7 @@ def _():
 # ageing: run catalogue queries on an EXISTING object (any harness' object), so that what a property
 # harness observes comes from an object with warm / argument-dependent caches (C12: unobservable)
 # ---------------------------------------------------------------------------------------------
-MUTATING_OPS = {"order_cells", "add_pits", "repair_loops", "set_transform"}
+MUTATING_OPS = {"order_cells", "add_pits", "repair_loops", "set_transform", "derived_objects"}
 _HEAVY = {"upscale", "ucat", "subgrid_riv", "from_dem", "fill_depressions_idxs_pit", "slope", "spread2d", "regions",
           "gis_utils", "conversion", "from_array", "k_path_snap", "k_distance_slope_spread", "k_subgrid_slope",
           "subbasins_pfafstetter", "dem_dig_d4"}
